@@ -62,17 +62,22 @@ serde = "1"
     return os.path.join(DEPS_TARGET, "debug", "deps"), rlibs
 
 
-def compile_probe(deps, rlibs, path, outdir):
+# the configurations a crate that includes generated code is compiled in
+DEV = ("dev", [])
+RELEASE = ("release", ["-C", "opt-level=3", "-C", "debug-assertions=off", "-C", "overflow-checks=off"])
+
+
+def compile_probe(deps, rlibs, path, outdir, config=DEV):
     base = os.path.basename(path)[:-3]
-    cmd = ["rustc", "--edition", "2021", "--crate-type", "lib", "--crate-name", base, "--emit=metadata", "-o", os.path.join(outdir, base + ".rmeta"),
-           "-L", "dependency=" + deps, "--error-format=short", "--cap-lints", "allow"]
+    cmd = ["rustc", "--edition", "2021", "--crate-type", "lib", "--crate-name", base, "--emit=metadata", "-o", os.path.join(outdir, "%s-%s.rmeta" % (base, config[0])),
+           "-L", "dependency=" + deps, "--error-format=short", "--cap-lints", "allow"] + list(config[1])
     for k in ("truc_runtime", "static_assertions", "vtypes"):
         cmd += ["--extern", "%s=%s" % (k, rlibs[k])]
     cmd.append(path)
     return cmd
 
 
-def run_probes(ctx, kind, quick):
+def run_probes(ctx, kind, quick, configs=(DEV,)):
     binary = common.cargo_build("layoutmon", "fastdebug")
     d = os.path.join(common.WORK, "probes-%s-%s-%d" % (kind, ctx.tier, ctx.seed))
     rc, out, err = common.sh([binary, "emit-probes", "--kind", kind, "--quick", "1" if quick else "0", "--seed", str(ctx.seed), "--out-dir", d], timeout=900)
@@ -82,10 +87,10 @@ def run_probes(ctx, kind, quick):
     deps, rlibs = probe_deps()
     outdir = os.path.join(d, "out")
     os.makedirs(outdir, exist_ok=True)
-    jobs = [(m["file"], compile_probe(deps, rlibs, os.path.join(d, m["file"]), outdir), None, None) for m in manifest]
+    jobs = [((m["file"], c[0]), compile_probe(deps, rlibs, os.path.join(d, m["file"]), outdir, c), None, None) for m in manifest for c in configs]
     results = {}
     for (lab, rc, out, err, secs) in ctx.run_parallel(jobs, 600):
-        results[lab] = (rc, err or "")
+        results[lab if len(configs) > 1 else lab[0]] = (rc, err or "")
     shutil.rmtree(outdir, ignore_errors=True)
     return d, manifest, results
 
@@ -95,11 +100,17 @@ def codes(err):
 
 
 def run_c11(ctx):
-    d, manifest, results = run_probes(ctx, "c11", ctx.quick)
+    # every probe is compiled the way a dev build and the way a release build compiles the
+    # crate that includes the generated module: the rejection must not depend on the profile
+    d, manifest, results = run_probes(ctx, "c11", ctx.quick, configs=(DEV, RELEASE))
     # controls first: a cell whose control does not compile decides nothing
     bad_controls = 0
-    for m in manifest:
-        rc, err = results.get(m["file"], (None, ""))
+    for m, config in [(m, c[0]) for m in manifest for c in (DEV, RELEASE)]:
+        rc, err = results.get((m["file"], config), (None, ""))
+        if config != "dev":
+            m = dict(m)
+            m["description"] = "%s [compiled with %s]" % (m["description"], " ".join(RELEASE[1]))
+            m["signature"] = m["signature"] + " [release]"
         ctx.evaluations += 1
         if rc is None:
             ctx.inconclusive.append("probe %s timed out" % m["file"])
@@ -111,13 +122,14 @@ def run_c11(ctx):
                 if bad_controls <= 3:
                     ctx.inconclusive.append("control does not compile (%s): %s" % (m["description"], err.strip().splitlines()[:2]))
             continue
-        ctx.distinct += 1
+        if config == "dev":
+            ctx.distinct += 1
         c = codes(err)
         if rc == 0:
             ctx.count("perturbed_probes_that_compiled", 1)
             ctx.violation("wrong-type-information-compiled", "%s: the generated module compiles" % m["description"], m["signature"],
                           {"probe": os.path.join(d, m["file"]), "description": m["description"],
-                           "cmd": "rustc --edition 2021 --crate-type lib --emit=metadata (see runner/props_probe.py) %s" % os.path.join(d, m["file"])})
+                           "cmd": "rustc --edition 2021 --crate-type lib --emit=metadata %s(see runner/props_probe.py) %s" % ("" if config == "dev" else " ".join(RELEASE[1]) + " ", os.path.join(d, m["file"]))})
         elif "E0080" in c or "E0277" in c:
             ctx.count("perturbed_probes_rejected", 1)
             for code in c:
@@ -127,7 +139,8 @@ def run_c11(ctx):
             ctx.inconclusive.append("probe rejected, but not by a size/alignment assertion or a Copy bound (%s): %s" % (m["description"], err.strip().splitlines()[:2]))
         if len(ctx.samples) < 6 and ctx.evaluations % 41 == 0:
             ctx.samples.append("%s -> %s %s" % (m["description"], "compiles" if rc == 0 else "rejected", c))
-    ctx.subruns.append({"engine": "rustc --emit=metadata on generate() output", "probes": len(manifest), "dir": d})
+    ctx.subruns.append({"engine": "rustc --emit=metadata on generate() output", "probes": len(manifest), "dir": d,
+                        "compiler_configurations": ["dev (debug assertions on)", "release (" + " ".join(RELEASE[1]) + ")"]})
 
 
 def run_c14(ctx):
